@@ -50,7 +50,7 @@ theorem C06_string_value (html : Bool) (s rest : Str) (f : Nat) :
 /-- with EscapeHTML the literal contains none of '<', '>', '&' -/
 theorem C06_safe_has_no_html (s : Str) : ∀ c ∈ quote true s, c ≠ '<' ∧ c ≠ '>' ∧ c ≠ '&' := by
   intro c hc
-  simp only [quote, List.mem_append, List.mem_cons, List.not_mem_nil, or_false, false_or,
+  simp only [quote, List.mem_append, List.mem_cons, List.not_mem_nil, or_false,
     List.mem_flatMap] at hc
   rcases hc with (h | ⟨x, _, hx⟩) | h
   · subst h; decide
@@ -60,7 +60,7 @@ theorem C06_safe_has_no_html (s : Str) : ∀ c ∈ quote true s, c ≠ '<' ∧ c
 /-- without it they appear literally -/
 theorem C06_default_literal (s : Str) (c : Char) (hc : c = '<' ∨ c = '>' ∨ c = '&') (h : c ∈ s) :
     c ∈ quote false s := by
-  simp only [quote, List.mem_append, List.mem_cons, List.not_mem_nil, or_false, false_or,
+  simp only [quote, List.mem_append, List.mem_cons, List.not_mem_nil, or_false,
     List.mem_flatMap]
   exact Or.inl (Or.inr ⟨c, h, by rw [quoteChar_default_html c hc]; simp⟩)
 
@@ -170,9 +170,14 @@ theorem C06_accepted_value (s : Str) (hs : s ≠ []) (hb : (skipWs s).head? ≠ 
   cases hfv : firstValue s with
   | none => simp [hfv] at h
   | some v =>
-    cases v <;> simp only [hfv, Option.some.injEq] at h <;> first | cases h | skip
-    · subst h; exact ⟨rfl, Or.inr rfl⟩
-    · subst h; exact ⟨rfl, Or.inl ⟨_, rfl⟩⟩
+    rw [hfv] at h
+    cases v with
+    | null => simp only [Option.some.injEq] at h; subst h; exact ⟨rfl, Or.inr rfl⟩
+    | map m => simp only [Option.some.injEq] at h; subst h; exact ⟨rfl, Or.inl ⟨_, rfl⟩⟩
+    | bool b => cases h
+    | num t => cases h
+    | str t => cases h
+    | list xs => cases h
 
 /-- with a leading '[' the result is a map whose FIRST key is "object" -/
 theorem C06_wrapper_shape (s : Str) (hs : s ≠ []) (hb : (skipWs s).head? = some '[') (r : Val)
@@ -181,22 +186,30 @@ theorem C06_wrapper_shape (s : Str) (hs : s ≠ []) (hb : (skipWs s).head? = som
   cases hfv : firstValue (wrapObj s) with
   | none => simp [hfv] at h
   | some v =>
-    cases v <;> simp only [hfv, Option.some.injEq] at h <;> first | cases h | skip
-    · exfalso
+    rw [hfv] at h
+    cases v with
+    | null =>
+      exfalso
       obtain ⟨r', hr⟩ := firstValue_eq_some _ _ hfv
       rw [wrapObj_eq false s] at hr
       obtain ⟨m, hm⟩ := value_brace_isMap _ _ _ _ hr
       cases hm
-    · subst h
+    | map m =>
+      simp only [Option.some.injEq] at h
+      subst h
       obtain ⟨v, m', hm⟩ := wrapObj_shape s _ hfv
       exact ⟨v, m', by rw [hm]⟩
+    | bool b => cases h
+    | num t => cases h
+    | str t => cases h
+    | list xs => cases h
 
 /-- … but not necessarily the only key, nor bound to the array (recorded findings) -/
 example : newMapJson "[1],\"x\":2".toList
     = some (.map [(objKey, .list [.num "jn:1".toList]), ("x".toList, .num "jn:2".toList)]) := by
-  decide
+  decide +kernel
 example : newMapJson "[1],\"object\":5".toList = some (.map [(objKey, .num "jn:5".toList)]) := by
-  decide
+  decide +kernel
 
 /-- an encoded array is accepted and comes back under "object" -/
 theorem C06_array_wrapped (html : Bool) (xs : List Val) (hx : JsonShaped (.list xs) = true) :
@@ -208,7 +221,7 @@ example : newMapJson "\"str\"".toList = none := by decide
 example : newMapJson "12".toList = none := by decide
 example : newMapJson " null".toList = some .null := by decide
 example : newMapJson "{\"a\":1} trailing }{".toList
-    = some (.map [("a".toList, .num "jn:1".toList)]) := by decide
+    = some (.map [("a".toList, .num "jn:1".toList)]) := by decide +kernel
 
 /-! ### non-vacuity -/
 
@@ -222,8 +235,10 @@ def exMap : Entries :=
     ("m".toList, .map [("b".toList, .num "jn:0".toList), ("a".toList, .str [])]) ]
 
 example : JsonShaped (.map exMap) = true := by decide
-example : newMapJson (mapJson true (.map exMap)) = some (Val.norm (.map exMap)) := by decide
-example : newMapJson (mapJson false (.map exMap)) = some (Val.norm (.map exMap)) := by decide
+example : newMapJson (mapJson true (.map exMap)) = some (Val.norm (.map exMap)) := by
+  decide +kernel
+example : newMapJson (mapJson false (.map exMap)) = some (Val.norm (.map exMap)) := by
+  decide +kernel
 example : mapJson true (.map exMap) ≠ mapJson false (.map exMap) := by decide
 example : ∃ r, newMapJson (mapJson false (.map exMap)) = some r ∧ r ≈ᵥ .map exMap :=
   C06_roundtrip false exMap (by decide)
